@@ -14,6 +14,8 @@ use crate::{cgi, Config, ExitStatus};
 mod util;
 
 use util::{RepeatableLockFuture, WaitGroup};
+#[cfg(fastcgi_server_verif)]
+pub use util::verif_hook;
 
 
 /// An unbuffered, `async` writer for output to a FastCGI stream.
